@@ -1461,6 +1461,21 @@ val assemble : (n list * fval) list -> ycfg -> ycfg option
 
 val read_one_liner : n list -> ycfg option
 
+val gen_cram_block :
+  mode -> n list -> n list list -> n list list -> n -> block
+
+val gen_cram_doc :
+  mode -> n list option -> n list -> n list list -> n list list -> n -> block
+  list
+
+val gen_body : mode -> n list list -> n -> bline list
+
+val md_block_text : n list -> n list list -> bline list -> n list list
+
+val gen_md_doc :
+  mode -> n list option -> n list -> n list list -> n list list -> n -> elem
+  list
+
 val make_exp : bool -> bool -> (nat -> bool) -> nat exp
 
 val exp_opt : nat exp -> bool
